@@ -229,6 +229,19 @@ func c10Gen(rt *rapid.T) wProg {
 			p.Ops = append(p.Ops, wOp{K: "restart"})
 		}
 	}
+	if gPct(rt, 8) && has(1) && has(0) {
+		// user 1's only connection sits on 'me' and stops reading while a peer keeps writing to their P2P
+		// topic: 'me' drops the connection when its queue is full; with nobody left on it 'me' is unloaded
+		// and the user's contacts are told 'off'
+		x := first[1]
+		for s, u := range p.Sess {
+			if u == 1 && s != x {
+				p.Ops = append(p.Ops, wOp{K: "disc", S: s})
+			}
+		}
+		p.Ops = append(p.Ops, wOp{K: "sub", S: x, T: "me", B: "sub"}, wOp{K: "leave", S: x, T: "g0"}, wOp{K: "leave", S: x, T: "p0"}, wOp{K: "leave", S: x, T: "p2"},
+			wOp{K: "sub", S: first[0], T: "p1"}, wOp{K: "sub", S: first[0], T: "me", B: "sub"}, wOp{K: "pause", S: x}, wOp{K: "flood", S: first[0], T: "p1", N: 200}, wOp{K: "tick", N: 7000})
+	}
 	return p
 }
 
@@ -596,6 +609,7 @@ func (o *c10Obs) counters(w *wWorld, live map[string]*wTopicSnap) *kit.Viol {
 }
 
 func (o *c10Obs) Final(w *wWorld) *kit.Viol {
+	o.att.syncPaused(w)
 	// let background sessions come to the foreground and idle topics unload
 	w.tick(7 * time.Second)
 	w.tick(7 * time.Second)
@@ -637,7 +651,7 @@ func (o *c10Obs) Final(w *wWorld) *kit.Viol {
 		me := live[w.users[a].uid.UserId()]
 		var obsSessions []int
 		for sess, ss := range w.sess {
-			if ss != nil && !ss.isClosed() && ss.user == a {
+			if ss != nil && !ss.isClosed() && ss.user == a && !ss.pause.Load() { // (a connection which does not read has not been told anything)
 				if _, on := o.att.att[sess][w.users[a].uid.UserId()]; on {
 					obsSessions = append(obsSessions, sess)
 				}
